@@ -247,7 +247,8 @@ struct ChunkedRange {
       // functions should be invoked instead.
       std::abort();
     }
-    return {chunk, (size() + chunk - 1) / chunk};
+    // Ceiling division without forming size() + chunk, which overflows size_type for huge chunk values.
+    return {chunk, size() / chunk + (size() % chunk != 0 ? 1 : 0)};
   }
 
   IntegerT start;
